@@ -8,6 +8,20 @@ from gen import marker_real as R
 from gen import markers as G
 from run import Prop
 
+# inputs on which the unrepaired code contradicted the statement (findings_proposed/C09.json); they run first on every check
+WITNESSES = [
+    ("str_text_roundtrip", {"marker": "os_name=='x' and ((os_name=='a' or os_name=='b'))"}),
+    ("str_text_roundtrip", {"marker": "((os_name=='a' or os_name=='b')) and os_name=='x'"}),
+    ("eq_texts", {"a": "os_name=='a' and extra=='Foo_Bar'", "b": "os_name=='a' and extra=='foo-bar'"}),
+    ("eq_texts", {"a": "(('FOO.bar'==extra))", "b": "'foo-bar' == extra"}),
+    ("str_text_roundtrip", {"marker": "(extra=='Foo_Bar')"}),
+    ("str_text_roundtrip", {"marker": "os_name == 'a\"b'"}),
+    ("str_text_roundtrip", {"marker": "'\"' in platform_version or extra == '\"'"}),
+    ("construct_exception_class", {"marker": "os_name == '\\x'"}),
+    ("construct_exception_class", {"marker": "os_name == 'a\nb'"}),
+    ("construct_exception_class", {"marker": "os_name == 'a\x00b'"}),
+    ("construct_exception_class", {"marker": "os_name == 'a\ud800b'"}),
+]
 RULES = ["LEFT_PARENTHESIS", "RIGHT_PARENTHESIS", "QUOTED_STRING", "OP", "BOOLOP", "IN", "NOT", "VARIABLE", "WS", "END"]
 LIT_SNIPPETS = ["\\n", "\\x41", "\\", "\\\n", "\\777", "\\u00e9", "\\q", "\\U0001F600", "\\x4", "\\N{}", "\\Nx", "\n", "\r",
                 "\x00", "\ud800", "\\\r\n", "\\'", '\\"', "\\\\", "\\0", "\\18", "é", "\x0c", "\\U00110000", "\\u12"]
@@ -51,6 +65,11 @@ class C09(Prop):
         return tree, G.render(tree, rng, extra_paren=rng.choice([0.1, 0.25, 0.5]), respell_extra=rng.random() < 0.5)
 
     def gen_cases(self, rng, n):
+        for _law, inp in WITNESSES:
+            if "marker" in inp:
+                yield R.case_rt(inp["marker"])
+            else:
+                yield R.case_eq(inp["a"], inp["b"])
         k = 0
         while k < n:
             try:
@@ -135,6 +154,7 @@ class C09(Prop):
 
     # ---- laws on the real code
     def gen_laws(self, rng, n):
+        yield from WITNESSES
         k = 0
         while k < n:
             pool = G.make_pool(rng)
